@@ -55,6 +55,7 @@ type Shard struct {
 	lastP       time.Time
 	resumeAfter string
 	resuming    bool
+	only        string // replay of a process-level violation: run nothing but this case id
 	sampleCap   int
 	vioPerKey   map[string]int
 	curID       string
@@ -97,7 +98,10 @@ func (s *Shard) Pick(q, t int) int {
 }
 
 // Mine reports whether case number i belongs to this shard.
-func (s *Shard) Mine(i int) bool { return s.Count <= 1 || i%s.Count == s.Index }
+func (s *Shard) Mine(i int) bool { return s.only != "" || s.Count <= 1 || i%s.Count == s.Index }
+
+// Only restricts the shard to the single case id (used to replay a crash / hang / blocked case).
+func (s *Shard) Only(id string) { s.only = id }
 
 // Rand returns a PRNG determined by (seed, property, stream name) only.
 func (s *Shard) Rand(stream string) *rand.Rand {
@@ -117,6 +121,9 @@ func (s *Shard) emit(e Event) {
 func (s *Shard) Begin(id string) bool {
 	s.mu.Lock()
 	defer s.mu.Unlock()
+	if s.only != "" && id != s.only {
+		return false
+	}
 	if s.resuming {
 		if id == s.resumeAfter {
 			s.resuming = false
